@@ -24,6 +24,11 @@ Definition commit_discharge : list (string * string) := [
   ("BinaryBinnedAUPRC", "_update");
   ("RetrievalPrecision", "torch.cat"); ("RetrievalPrecision", "get_topk"); ("RetrievalPrecision", "batch_targets.gather");
   ("RetrievalRecall", "torch.cat"); ("RetrievalRecall", "get_topk"); ("RetrievalRecall", "batch_targets.gather");
+  (* since /repo d719b1e / 4c57037: per query, everything is computed into locals before the writes; in the
+     per-query loop the next query's `target.sum()` / `torch.where(..).argmax()` (argmax of a non-empty 1-D
+     tensor: the branch is guarded by `1 in batch_targets`) run after the previous query's writes *)
+  ("RetrievalRecall", "target.sum");
+  ("RetrievalPrecision", "torch.where"); ("RetrievalPrecision", "torch.where(batch_targets == 1, batch_preds, -torch.inf).arg");
   ("PeakSignalNoiseRatio", "target.min"); ("PeakSignalNoiseRatio", "torch.minimum");
   ("PeakSignalNoiseRatio", "target.max"); ("PeakSignalNoiseRatio", "torch.maximum");
   ("R2Score", "inplace:sum_obs"); ("R2Score", "inplace:sum_squared_residual");
